@@ -479,7 +479,7 @@ def run_pipeline(
                 num_bytes = buckets_data_tree.nbytes
                 num_bytes += detector.scene.data.nbytes
 
-                if debug:
+                if debug and detector._intermediate is not None:
                     num_bytes += detector.intermediate.nbytes
 
                 if detector._data is not None:
@@ -512,7 +512,12 @@ def run_pipeline(
 
         # If debug is enabled, add intermediate data to the `DataTree`.
         if debug:
-            datatree_intermediate: xr.DataTree = detector.intermediate
+            # Note: 'intermediate' is not initialized when no model was executed
+            datatree_intermediate: xr.DataTree = (
+                detector.intermediate
+                if detector._intermediate is not None
+                else xr.DataTree(name="intermediate")
+            )
 
             # Remove temporary data_tree '/last' from 'datatree_intermediate'
             dct["/intermediate"] = datatree_intermediate.drop_nodes(
